@@ -221,10 +221,32 @@ def make_host(sim, layout):
     return host
 
 
-def run_scenario(seed, sc_no):
+MODES = ["classic"] * 11 + ["big"] * 3 + ["twin"] * 3 + ["ports"] * 3
+
+
+def make_big_infos(xr):
+    """10..40 services of one type: the answer to a PTR / ANY / enumeration question does not fit one datagram"""
+    from zeroconf import ServiceInfo
+
+    n = xr.choice([10, 16, 24, 40])
+    t = "_a._tcp.local."
+    infos = []
+    for i in range(n):
+        addrs = [socket.inet_aton("10.0.%d.%d" % (i // 200, i % 200 + 1))]
+        if i % 3 == 0:
+            addrs.append(socket.inet_pton(socket.AF_INET6, "fe80::%x" % (i + 1)))
+        infos.append(ServiceInfo(t, "Printer-%02d-%s.%s" % (i, "x" * (i % 7), t), 8000 + i, addresses=addrs, server="host%02d.local." % (i // 2),
+                                 properties={"path": "/%d" % i, "note": "n" * (10 + i % 30)},
+                                 host_ttl=xr.choice([120, 120, 8]), other_ttl=xr.choice([4500, 4500, 5])))
+    return infos
+
+
+def run_scenario(seed, sc_no, mode=None):
     sim = vsim.Sim(seed="c11/%s/%s" % (seed, sc_no), maxdelay=0)
     rng = C.rng_for(seed, "c11", "tr", sc_no)
     jrng = C.rng_for(seed, "c11", "jitter", sc_no)
+    xr = C.rng_for(seed, "c11", "mode", sc_no)     # the scenario families added after the second review draw from their own stream
+    mode = mode or xr.choice(MODES)
 
     def biased(lo, hi):
         x = jrng.random()
@@ -233,20 +255,28 @@ def run_scenario(seed, sc_no):
         return v
 
     sim.randint = biased
-    box = {}
+    box = {"mode": mode}
 
     async def main(sim):
         layout = rng.choice(["4", "4", "46", "44", "446", "64"])
         host = make_host(sim, layout)
         zc = host.zc
         await zc.async_wait_for_start()
-        infos = R.make_infos(rng, ttl_bias=[1, 2, 4, 5, 8, 120, 120, 4500])
+        if mode == "big":
+            infos = make_big_infos(xr)
+        else:
+            infos = R.make_infos(rng, ttl_bias=[1, 2, 4, 5, 8, 120, 120, 4500])
         uni = R.Universe()
         R.seed_universe(uni, infos)
-        for inf in infos:
-            t = await zc.async_register_service(inf)
-            await t
-        await sim.sleep_ms(rng.choice([1200, 2000, 30000, 1200000]))
+        if mode == "big":
+            for inf in infos:
+                zc.registry.async_add(inf)      # no probing / announcing: 40 registrations would only cost time
+            await sim.sleep_ms(1200)
+        else:
+            for inf in infos:
+                t = await zc.async_register_service(inf)
+                await t
+            await sim.sleep_ms(rng.choice([1200, 2000, 30000, 1200000]))
         rx_i = rng.randrange(len(layout))
         rx_v6 = layout[rx_i] == "6"
         rx_tr = host.transports[rx_i]
@@ -257,6 +287,45 @@ def run_scenario(seed, sc_no):
         # flowinfo / scope id of the link-local peers: fixed per peer for the scenario (the listener keys deferred packets by the
         # address string alone, the model by the whole address part of the sockaddr), and in general not the receiving socket's
         v6peer = {ip: (rng.choice([0, 0, 7]), rng.choice([3, 3, 4, 9, 0])) for ip in ("fe80::9", "fe80::8")}
+
+        def deliver(data, src, **kw):
+            box["queries"].append(dict(t=sim.loop.ms, src=src, data=data, **kw))
+            rx_tr.protocol.datagram_received(data, src)
+
+        def peer(ip4, ip6, port):
+            return ((ip6, port) + v6peer[ip6]) if rx_v6 else (ip4, port)
+
+        if mode == "big":
+            from zeroconf import DNSOutgoing, DNSQuestion, const as _k
+            for _ in range(xr.choice([1, 2, 3])):
+                await sim.sleep_ms(xr.choice([0, 1, 130, 1001, 2500]))
+                if xr.random() < 0.4:
+                    r = xr.choice(uni.recs)
+                    e = R.with_ttl(r, int(r.ttl))
+                    e.created = float(sim.loop.ms - xr.choice([0, 999, 1000, 250 * int(r.ttl) - 1, 250 * int(r.ttl)]))
+                    zc.cache.async_add_records([e])
+                    tr.pokes.append((sim.loop.ms, uni.id(r)))
+                port = xr.choice([5353, 5353, 40000, 65535, 5354])
+                qs = xr.choice([[("_a._tcp.local.", _k._TYPE_PTR)], [("_a._tcp.local.", _k._TYPE_PTR)], [("_a._tcp.local.", _k._TYPE_ANY)],
+                                [(_k._SERVICE_TYPE_ENUMERATION_NAME, _k._TYPE_PTR), ("_a._tcp.local.", _k._TYPE_PTR)],
+                                [(infos[0].server, _k._TYPE_A), ("_a._tcp.local.", _k._TYPE_PTR)]])
+                out = DNSOutgoing(_k._FLAGS_QR_QUERY)
+                for (name, typ) in qs:
+                    q = DNSQuestion(name, typ, _k._CLASS_IN)
+                    q.unicast = port == 5353 and xr.random() < 0.5
+                    out.add_question(q)
+                if xr.random() < 0.2:
+                    out.add_authorative_answer(infos[0].dns_pointer())
+                d = bytearray(out.packets()[0])
+                ident = xr.choice([0, 1, 0xFFFF, 0x1234]) if port != 5353 else xr.choice([0, 0, 7])
+                d[0], d[1] = ident >> 8, ident & 255
+                deliver(bytes(d), peer(xr.choice(["10.0.0.9", "10.0.0.8"]), "fe80::9", port), id=ident)
+            await sim.sleep_ms(3000)
+            box["end_t"] = sim.loop.ms
+            tr.uninstall()
+            await vsim.close_host(host)
+            return
+
         for _ in range(rng.choice([1, 2, 3, 4, 6])):
             await sim.sleep_ms(rng.choice([0, 1, 20, 130, 501, 1001, 1300, 2500, rng.randint(0, 4000)]))
             now = sim.loop.ms
@@ -337,6 +406,34 @@ def run_scenario(seed, sc_no):
             src = source()
             box["queries"].append(dict(t=now, src=src, data=data, id=qid, probe=probe))
             rx_tr.protocol.datagram_received(data, src)
+
+        if mode == "twin":
+            # second review, 1(a): the same bytes from two different resolvers (legacy source ports, no QU question) within a second --
+            # each of them is owed its own unicast reply; and the control: a true repeat (same sockaddr), which C16 wants dropped
+            await sim.sleep_ms(xr.choice([1100, 1500, 3000]))
+            port = xr.choice([40000, 1, 65535, 5354])
+            pool = R.question_pool(infos)
+            questions = [xr.choice(pool[:len(pool) - 4]) for _ in range(xr.choice([1, 1, 2]))]
+            data, _q, _u = R.build_query(xr, infos, uni, xr.choice([0, 0, 1, 0xBEEF]), questions=questions, qus=[False] * len(questions), probe=False, known_p=0.0)
+            a = peer("10.0.0.9", "fe80::9", port)
+            other = xr.choice(["ip", "port", "same"])
+            b2 = peer("10.0.0.8", "fe80::8", port) if other == "ip" else peer("10.0.0.9", "fe80::9", port + 1 if port < 65535 else 40001) if other == "port" else a
+            deliver(data, a, id=None, family="twin-legacy")
+            await sim.sleep_ms(xr.choice([0, 1, 10, 10, 300, 998, 999]))
+            deliver(data, b2, id=None, family="twin-legacy", twin=other)
+        if mode == "ports":
+            # second review, 1(b): two resolvers on one host (same address, different source ports): one sends a truncated packet that is
+            # being held, the other a plain query -- two queries, two replies
+            await sim.sleep_ms(xr.choice([1100, 1500, 3000]))
+            p1 = xr.choice([40000, 5353, 5354])
+            p2 = xr.choice([40001, 1, 65535])
+            pool = R.question_pool(infos)
+            d1, _q, _u = R.build_query(xr, infos, uni, 7, questions=[xr.choice(pool[:len(pool) - 4])], qus=[False], tc=True, probe=False, known_p=0.0)
+            d2, _q, _u = R.build_query(xr, infos, uni, 9, questions=[xr.choice(pool[:len(pool) - 4])], qus=[False], probe=False, known_p=0.0)
+            deliver(d1, peer("10.0.0.9", "fe80::9", p1), id=7, family="two-ports")
+            await sim.sleep_ms(xr.choice([0, 1, 100, 399]))
+            deliver(d2, peer("10.0.0.9", "fe80::9", p2), id=9, family="two-ports")
+            await sim.sleep_ms(700)
         await sim.sleep_ms(3000)
         box["end_t"] = sim.loop.ms
         tr.uninstall()
@@ -351,167 +448,215 @@ def run_scenario(seed, sc_no):
     return box
 
 
-def spec_routes(tr, b, pkt):
-    """the property's routing of every answer of an ordinary (single packet) query:
-    -> (exp_ucast, exp_mcast_now, exp_mcast_later), from the English sentence"""
-    asm = b["asm"]
+def spec_routes(asm, pkts):
+    """the property's routing of every answer of a query (one datagram, or a truncated train taken as one query: probe if any
+    packet carries an authority section, known answers of the non-probe packets together, question count and first question
+    of the first packet, clock of the last packet): -> (exp_ucast, exp_mcast_now, exp_mcast_later, dontcare), from the English sentence"""
     seen = {i: (c, ttl) for (i, c, ttl) in asm["seen"]}
     t = asm["last_now"]
     legacy = asm["port"] != 5353
-    probe = pkt["num_auth"] > 0
+    probe = any(p["num_auth"] > 0 for p in pkts)
     known = {}
-    if not probe:
-        for rid, ttl in pkt["known"]:
-            known.setdefault(rid, set()).add(ttl)
+    for p in pkts:
+        if p["num_auth"] == 0:
+            for rid, ttl in p["known"]:
+                known.setdefault(rid, set()).add(ttl)
+    first = pkts[0]
     eu, em, el, dontcare = set(), set(), set(), set()
-    for qu, cands in pkt["items"]:
-        for rid, ttl, _adds, suppressible in cands:
-            ks = known.get(rid, set()) if suppressible else set()
-            sup = {kt * 2 > ttl for kt in ks}
-            if sup == {True}:
-                continue
-            if len(sup) == 2:
-                dontcare.add(rid)
-            s = seen.get(rid)
-            recent = s is not None and s[0] + 250 * s[1] > t
-            in1s = s is not None and t - s[0] < 1000
-            if qu and not legacy:
-                if probe:
-                    eu.add(rid)
-                    if not recent:
+    for p in pkts:
+        for qu, cands in p["items"]:
+            for rid, ttl, _adds, suppressible in cands:
+                ks = known.get(rid, set()) if suppressible else set()
+                sup = {kt * 2 > ttl for kt in ks}
+                if sup == {True}:
+                    continue
+                if len(sup) == 2:
+                    dontcare.add(rid)
+                s = seen.get(rid)
+                recent = s is not None and s[0] + 250 * s[1] > t
+                in1s = s is not None and t - s[0] < 1000
+                if qu and not legacy:
+                    if probe:
+                        eu.add(rid)
+                        if not recent:
+                            em.add(rid)
+                    elif recent:
+                        eu.add(rid)
+                    else:
                         em.add(rid)
-                elif recent:
-                    eu.add(rid)
                 else:
-                    em.add(rid)
-            else:
-                if legacy:
-                    eu.add(rid)
-                if probe:
-                    em.add(rid)
-                elif in1s:
-                    el.add(rid)
-                elif pkt["nq"] == 1 and pkt["q0type"] in (33, 1, 28, 47):
-                    em.add(rid)
-                else:
-                    el.add(rid)
+                    if legacy:
+                        eu.add(rid)
+                    if probe:
+                        em.add(rid)
+                    elif in1s:
+                        el.add(rid)
+                    elif first["nq"] == 1 and first["q0type"] in (33, 1, 28, 47):
+                        em.add(rid)
+                    else:
+                        el.add(rid)
     return eu, em, el, dontcare
 
 
+def reply_groups(b):
+    """the datagrams of a block grouped into replies: one `async_send` call = one `DNSOutgoing` (which `packets()` may split into
+    several datagrams); per reply and socket the datagrams in the order they were written"""
+    calls = {}
+    for o in b["outs"]:
+        calls.setdefault(o.get("call"), []).append(o)
+    out = []
+    for call, os_ in calls.items():
+        per_sock = {}
+        for o in os_:
+            per_sock.setdefault(id(o["sock"]), []).append(o)
+        out.append(dict(call=call, mcast=os_[0]["mcast"], per_sock=list(per_sock.values()), outs=os_))
+    return out
+
+
+def raw_q(q):
+    return q.class_ | (0x8000 if q.unique else 0)
+
+
 def check_trace_O(res, box, case):
+    """the property's sentences on every datagram of every block -- receive blocks, truncated-query timer blocks and queue
+    flushes alike (second review: nothing is special to one-datagram receive blocks any more)"""
     from zeroconf import const as k
 
     tr = box["tr"]
     uni = tr.uni
-    nsocks = box["nsocks"]
+    socks = box["socks"]
+    rx_sock = box["lis"].transport.transport.sock
     later_mcast = []
     # which datagrams each reply must be based on (delivered trains, judged from the input: `c12.tc_pass`; its own verdicts are C12's)
     from . import c12 as _c12
     lis_blocks = [b for b in tr.blocks if b["kind"] == "qf" or b.get("lis") is box["lis"]]
     _c12.tc_pass(C.Result("C12"), tr, lis_blocks, case, box.get("end_t", 0))
     parsed_by_data = {b["data"]: b["parsed"] for b in tr.blocks if b["kind"] == "rx" and b.get("parsed")}
+    # ---- nothing leaves the host outside a receive / timer / flush block ("by unicast alone", and nothing unsolicited)
+    for o in tr.orphans[:3]:
+        res.violate("C11:unsolicited-datagram", "a datagram to %s leaves the host outside every receive, truncated-query and queue block "
+                    "(%d bytes at %d ms): it answers no query" % (o["to_full"], len(o["data"]), o["t"] - T0), dict(case, at_ms=o["t"] - T0))
+    src_of = {}      # datagram bytes -> full source sockaddr of its latest delivery on this listener
+    prev_rx = None   # the datagram this listener saw last (what the duplicate guard compares with)
     for bi, b in enumerate(tr.blocks):
-        # ---- format of every datagram
-        groups = {}
-        for o in b["outs"]:
-            m = o["msg"]
-            wid, flags, qd, classes, _ = raw_classes(o["data"])
-            recs = m.answers()
-            v6sock = isinstance(o["sock"], Sock6)
-            if o["mcast"] or o["to"][0] == MDNS6:
-                o["mcast"] = True
-                later_mcast.append((bi, o["t"], set(o["ans"])))
-                groups.setdefault((tuple(sorted(o["ans"])), tuple(sorted(o["add"]))), []).append(o)
-                if wid != 0 or flags != 0x8400 or qd != 0:
-                    res.violate("C11:multicast-format", "multicast reply with id %d flags %#x and %d questions" % (wid, flags, qd), dict(case, at_ms=o["t"] - T0))
-                for r in recs:
-                    if r.unique != (r.type != k._TYPE_PTR):
-                        res.violate("C11:flush-bit", "multicast %s type %d carries cache-flush bit = %s" % (r.name, r.type, r.unique), dict(case, at_ms=o["t"] - T0))
-                if o["to"] != ((MDNS6 if v6sock else R.MDNS), 5353):
-                    res.violate("C11:multicast-destination", "multicast reply sent to %s from an %s socket" % (o["to"], "IPv6" if v6sock else "IPv4"), case)
-            else:
-                if any(r.unique for r in recs):
-                    res.violate("C11:unicast-flush-bit", "unicast reply carries a cache-flush bit", dict(case, at_ms=o["t"] - T0))
-                if flags != 0x8400:
-                    res.violate("C11:unicast-format", "unicast reply flags %#x" % flags, case)
-        for key, os_ in groups.items():
-            if len(os_) != nsocks or len({id(o["sock"]) for o in os_}) != nsocks:
-                res.violate("C11:multicast-sockets", "a multicast reply went out on %d of the host's %d sockets" % (len(os_), nsocks), dict(case, at_ms=b["t"] - T0))
-        # ---- every copy of a query with a QU question is owed its reply
-        if (b["kind"] == "rx" and b.get("parsed") and not b["asm"] and b["lis"] is box["lis"] and not (b["parsed"]["flags"] & 0x200)):
+        at = dict(case, at_ms=b["t"] - T0)
+        mine = b["kind"] == "qf" or b.get("lis") is box["lis"]
+        if b["kind"] == "rx" and mine:
+            src_of[b["data"]] = b["src_full"]
+        # ---- format, socket and destination of every datagram, reply by reply
+        groups = reply_groups(b)
+        for g in groups:
+            if g["mcast"]:
+                later_mcast.append((bi, b["t"], set().union(*[set(o["ans"]) for o in g["outs"]])))
+                counts = sorted(len(x) for x in g["per_sock"])
+                if len(g["per_sock"]) != len(socks) or counts[0] != counts[-1]:
+                    res.violate("C11:multicast-sockets", "a multicast reply of %d datagram(s) went out on %d of the host's %d sockets (datagrams per socket %s)" % (
+                        counts[-1], len(g["per_sock"]), len(socks), counts), at)
+            for o in g["outs"]:
+                wid, flags, qd, classes, m = raw_classes(o["data"])
+                recs = m.answers()
+                v6sock = isinstance(o["sock"], Sock6)
+                if g["mcast"]:
+                    if wid != 0 or flags != 0x8400 or qd != 0:
+                        res.violate("C11:multicast-format", "multicast reply datagram with id %d flags %#x and %d questions" % (wid, flags, qd), at)
+                    for r in recs:
+                        if r.unique != (r.type != k._TYPE_PTR):
+                            res.violate("C11:flush-bit", "multicast %s type %d carries cache-flush bit = %s" % (r.name, r.type, r.unique), at)
+                    name = o["sock"].getsockname()
+                    want_to = (MDNS6, 5353, name[2], name[3]) if v6sock else (R.MDNS, 5353)
+                    if o["to_full"] != want_to:
+                        res.violate("C11:multicast-destination", "multicast reply sent to %s from the %s socket %s (expected %s)" % (
+                            o["to_full"], "IPv6" if v6sock else "IPv4", name, want_to), at)
+                else:
+                    if any(r.unique for r in recs):
+                        res.violate("C11:unicast-flush-bit", "unicast reply carries a cache-flush bit", at)
+                    if any(raw_q(q) >= 0x8000 for q in m._questions):
+                        res.violate("C11:unicast-qu-bit", "a question echoed in a unicast reply carries the top bit of the class field (%s)" % (
+                            [hex(raw_q(q)) for q in m._questions]), at)
+                    if flags != 0x8400:
+                        res.violate("C11:unicast-format", "unicast reply datagram with flags %#x (response + authoritative = 0x8400 expected)" % flags, at)
+                    if o["sock"] is not rx_sock and mine:
+                        res.violate("C11:unicast-socket", "unicast reply (block %s) not sent on the receiving socket" % b["kind"], at)
+        # ---- a query that is not answered at all
+        if b["kind"] == "rx" and mine and b.get("parsed") and not b["asm"] and not (b["parsed"]["flags"] & 0x200):
             pkt = b["parsed"]
             known = {}
             if pkt["num_auth"] == 0:
                 for rid, ttl in pkt["known"]:
                     known.setdefault(rid, set()).add(ttl)
-            owed = sorted({rid for qu, cands in pkt["items"] if qu for (rid, ttl, _a, sup) in cands
-                           if not (sup and known.get(rid) and all(kt * 2 > ttl for kt in known[rid]))})
+            unsup = lambda rid, ttl, sup: not (sup and known.get(rid) and all(kt * 2 > ttl for kt in known[rid]))
+            owed = sorted({rid for qu, cands in pkt["items"] if qu for (rid, ttl, _a, sup) in cands if unsup(rid, ttl, sup)})
+            ago = next((b["t"] - x["t"] for x in reversed(tr.blocks[:bi]) if x["kind"] == "rx" and x["data"] == b["data"]), "?")
             if owed and not b["outs"]:
                 res.violate("C11:qu-question-unanswered",
                             "a query from %s:%d with a QU question (QU/QM pattern %s) was not handled at all: %s get neither a unicast nor a multicast reply "
                             "(an identical datagram had arrived %s ms earlier; RFC 6762 5.4 owes every QU question its reply)" % (
                                 b["src"][0], b["src"][1], "".join("U" if q[3] else "M" for q in pkt["questions"]),
-                                [uni.describe(i) for i in owed],
-                                next((b["t"] - x["t"] for x in reversed(tr.blocks[:bi]) if x["kind"] == "rx" and x["data"] == b["data"]), "?")),
-                            dict(case, at_ms=b["t"] - T0))
-        # ---- a reassembled truncated query: the unicast reply goes to the source, with id and questions of the train's FIRST datagram
-        if b["asm"] and b["asm"]["npkts"] > 1 and b.get("want") and b["lis"] is box["lis"]:
-            first = parsed_by_data.get(b["want"][0])
-            src_full = b["src_full"] if b["kind"] == "rx" else None
-            for o in b["outs"]:
-                if o["mcast"] or first is None:
-                    continue
-                m = o["msg"]
-                at = dict(case, at_ms=b["t"] - T0)
-                legacy = o["to"][1] != 5353
-                if m.id != first["id"]:
-                    res.violate("C11:unicast-id", "reply to a truncated query of %d datagrams has id %d; its first datagram has id %d" % (
-                        len(b["want"]), m.id, first["id"]), at)
-                echoed = [(q.name, q.type, q.class_) for q in m._questions]
-                want_q = [(n, t, c) for (n, t, c, _u) in first["questions"]] if legacy else []
-                if echoed != want_q:
-                    res.violate("C11:question-echo", "reply to a truncated query of %d datagrams (port %d) echoes %s; the first datagram asks %s" % (
-                        len(b["want"]), o["to"][1], echoed, want_q), at)
-                if src_full is not None and o["to_full"] != src_full:
-                    res.violate("C11:unicast-destination", "unicast reply sent to %s, query came from %s" % (o["to_full"], src_full), at)
-        # ---- routing of an ordinary query
-        if b["kind"] == "rx" and b["asm"] and b["asm"]["npkts"] == 1 and b.get("parsed"):
-            pkt = b["parsed"]
-            eu, em, el, dontcare = spec_routes(tr, b, pkt)
-            ucasts = [o for o in b["outs"] if not o["mcast"]]
-            mnow = [o for o in b["outs"] if o["mcast"]]
-            got_u = set().union(*[set(o["ans"]) for o in ucasts]) if ucasts else set()
-            got_m = set().union(*[set(o["ans"]) for o in mnow]) if mnow else set()
-            src = b["src"]
-            at = dict(case, at_ms=b["t"] - T0)
+                                [uni.describe(i) for i in owed], ago), at)
+            legacy_owed = sorted({rid for qu, cands in pkt["items"] for (rid, ttl, _a, sup) in cands if unsup(rid, ttl, sup)}) if b["src"][1] != 5353 else []
+            if legacy_owed and not owed and not b["outs"] and prev_rx is not None and prev_rx[0] == b["data"] and prev_rx[1] != b["src_full"]:
+                # second review 1(a): the duplicate guard compares the bytes only -- a finding (known_findings.json); a repeat from the
+                # *same* sockaddr is C16's business and not judged here
+                res.violate("C11:identical-bytes-other-source-unanswered",
+                            "a query from %s (source port %d, not 5353) gets no unicast reply because the preceding datagram, %s ms earlier from %s, "
+                            "had the same bytes: %s are owed to this querier" % (b["src_full"], b["src"][1], ago, prev_rx[1], [uni.describe(i) for i in legacy_owed]), at)
+        if b["kind"] == "rx" and mine:
+            prev_rx = (b["data"], b["src_full"])
+        # ---- a query that is answered: routing, destination, id, question echo -- one datagram or a truncated train, receive or timer block
+        if b["asm"] and mine and b["kind"] in ("rx", "tc"):
+            asm = b["asm"]
+            datas = b.get("want") or asm["datas"]
+            pkts = [parsed_by_data.get(d) for d in datas]
+            if not pkts or any(p is None for p in pkts):
+                continue
+            first = pkts[0]
+            port = asm["port"]
+            srcs = {src_of.get(d) for d in datas}
+            ucast = [g for g in groups if not g["mcast"]]
+            mnow = [g for g in groups if g["mcast"]]
+            if len({(s[0], s[1]) for s in srcs if s}) > 1:
+                # second review 1(b): packets of different (address, port) sources taken for one query -- a finding; nothing else is judged
+                res.violate("C11:held-tc-merged-with-other-port",
+                            "datagrams from different sources %s (one address, different source ports) were answered as one query: the reply goes to %s "
+                            "with id %s; the other querier gets nothing" % (sorted((s[0], s[1]) for s in srcs if s),
+                                                                           [o["to_full"] for g in ucast for o in g["outs"]][:1], first["id"]), at)
+                continue
+            src_full = next(iter(srcs)) if len(srcs) == 1 else None
+            eu, em, el, dontcare = spec_routes(asm, pkts)
+            got_u = set().union(*[set(o["ans"]) for g in ucast for o in g["outs"]]) if ucast else set()
+            got_m = set().union(*[set(o["ans"]) for g in mnow for o in g["outs"]]) if mnow else set()
+            probe = any(p["num_auth"] > 0 for p in pkts)
             if (got_u - dontcare) != (eu - dontcare):
-                res.violate("C11:unicast-set", "unicast answers %s, the property routes %s there (port %d, probe %s)" % (
-                    sorted(uni.describe(i) for i in got_u), sorted(uni.describe(i) for i in eu), src[1], pkt["num_auth"] > 0), at)
+                res.violate("C11:unicast-set", "unicast answers %s, the property routes %s there (port %d, probe %s, %d datagram(s))" % (
+                    sorted(uni.describe(i) for i in got_u)[:8], sorted(uni.describe(i) for i in eu)[:8], port, probe, len(pkts)), at)
             if (got_m - dontcare) != (em - dontcare):
-                res.violate("C11:multicast-now-set", "multicast at once %s, the property routes %s there (port %d, probe %s)" % (
-                    sorted(uni.describe(i) for i in got_m), sorted(uni.describe(i) for i in em), src[1], pkt["num_auth"] > 0), at)
+                res.violate("C11:multicast-now-set", "multicast at once %s, the property routes %s there (port %d, probe %s, %d datagram(s))" % (
+                    sorted(uni.describe(i) for i in got_m)[:8], sorted(uni.describe(i) for i in em)[:8], port, probe, len(pkts)), at)
             b["expect_later"] = el - dontcare
-            for o in ucasts:
-                m = o["msg"]
-                if o["to_full"] != b["src_full"]:
-                    res.violate("C11:unicast-destination", "unicast reply sent to %s, query came from %s (for IPv6 the destination includes "
-                                "flowinfo and scope id of the source)" % (o["to_full"], b["src_full"]), at)
-                if o["sock"] is not box["lis"].transport.transport.sock:
-                    res.violate("C11:unicast-socket", "unicast reply not sent on the receiving socket", at)
-                if m.id != pkt["id"]:
-                    res.violate("C11:unicast-id", "unicast reply id %d, query id %d" % (m.id, pkt["id"]), at)
-                echoed = [(q.name, q.type, q.class_) for q in m._questions]
-                want = [(n, t, c) for (n, t, c, _u) in pkt["questions"]] if src[1] != 5353 else []
-                if echoed != want:
-                    res.violate("C11:question-echo", "unicast reply to port %d carries questions %s, expected %s" % (src[1], echoed, want), at)
-            if len(ucasts) > 1:
-                res.violate("C11:unicast-destination", "%d unicast datagrams for one query" % len(ucasts), at)
+            if len(ucast) > 1:
+                res.violate("C11:unicast-destination", "%d unicast replies for one query" % len(ucast), at)
+            for g in ucast:
+                if len(g["per_sock"]) != 1:
+                    res.violate("C11:unicast-socket", "the unicast reply was written to %d sockets" % len(g["per_sock"]), at)
+                echoed = []
+                for o in g["outs"]:
+                    m = o["msg"]
+                    echoed += [(q.name, q.type, q.class_) for q in m._questions]
+                    if src_full is not None and o["to_full"] != src_full:
+                        res.violate("C11:unicast-destination", "unicast reply (%s block, query of %d datagram(s)) sent to %s, query came from %s (for IPv6 the "
+                                    "destination includes flowinfo and scope id of the source)" % (b["kind"], len(pkts), o["to_full"], src_full), at)
+                    if m.id != first["id"]:
+                        res.violate("C11:unicast-id", "a datagram of the reply to a query of %d datagram(s) has id %d; the query's (first datagram's) id is %d" % (
+                            len(pkts), m.id, first["id"]), at)
+                want_q = [(n, t, c) for (n, t, c, _u) in first["questions"]] if port != 5353 else []
+                if echoed != want_q:
+                    res.violate("C11:question-echo", "reply to a query of %d datagram(s) from port %d echoes %s over its %d datagram(s); the query asks %s" % (
+                        len(pkts), port, echoed, len(g["outs"]), want_q), at)
     # ---- "in addition to the normal multicast": what was routed to a queue does get multicast
     for bi, b in enumerate(tr.blocks):
         for rid in b.get("expect_later", ()):
             if not any(bj >= bi and b["t"] <= s <= b["t"] + 1200 and rid in ans for (bj, s, ans) in later_mcast):
                 res.violate("C11:multicast-missing", "%s is owed a multicast reply and none follows within 1.2 s" % uni.describe(rid), dict(case, at_ms=b["t"] - T0))
-
 
 
 # ------------------------------------------------------------------------------------------
@@ -594,53 +739,84 @@ def world_str(box, tr, blocks):
     return " ".join(parts)
 
 
+def block_obs11(tr, b):
+    """the logical observation of a block in `c12run`'s format (`reply_common.block_obs`), with the datagrams of one reply
+    (`DNSOutgoing.packets()` may split it) taken together: one descriptor per unicast reply / per multicast reply"""
+    for o in b["outs"]:
+        R.decode_out(tr, o)
+    outs = []
+    for g in reply_groups(b):
+        one = g["per_sock"][0]                      # the same message on every socket
+        ans = C.natlist(sorted(i for o in one for i in o["ans"]))
+        add = C.natlist(sorted(i for o in one for i in o["add"]))
+        if g["mcast"]:
+            outs.append("m:%s:%s" % (ans, add))
+        else:
+            o0 = one[0]
+            outs.append("u:%d:%d:%d:%d:%s:%s" % (tr.addr_id(o0["akey"]), o0["to"][1], o0["msg"].id, sum(len(o["msg"]._questions) for o in one), ans, add))
+    outs = sorted(outs)
+    draws = ",".join("%d/%d/%d" % d for d in b["draws"])
+    return "%s %s" % (",".join(outs) if outs else "-", draws or "-")
+
+
 def block_phys(tr, box, b):
-    """every datagram of the block as it is on the sockets (same format as the driver's `physStr`): socket index, complete
-    destination sockaddr, raw id / flags, questions with the raw class field, records with the raw class field"""
+    """every reply of the block as it is on the sockets (same format as the driver's `physStr`), per socket: socket index, complete
+    destination sockaddr, raw id / flags, questions with the raw class field, records with the raw class field.  The datagrams of
+    a split reply are taken together (id, flags and destination of the first; every datagram is judged by the oracle and compared
+    byte for byte through `c11bytes`)."""
     ip_ids = tr.__dict__.setdefault("ip_ids", {})
     out = []
-    for o in b["outs"]:
-        to = o["to_full"]
-        ip = "g4" if to[0] == R.MDNS else "g6" if to[0] == MDNS6 else "p%d" % ip_ids.setdefault(to[0], len(ip_ids) + 1)
-        fs = "-" if len(to) == 2 else "%d.%d" % (to[2], to[3])
-        try:
-            si = next(i for i, s in enumerate(box["socks"]) if s is o["sock"])
-        except StopIteration:
-            si = -1
-        wid, flags, _qd, _cl, m = raw_classes(o["data"])
-        ans, add = R.split_sections(m)
-        raw = lambda e: e.class_ | (0x8000 if e.unique else 0)
-        qd = "+".join("%s:%d:%d" % (W.name_tok(q.name), q.type, raw(q)) for q in m._questions) or "-"
-        rs = lambda l: ",".join("%d.%d.%d" % x for x in sorted((tr.uni.id(r), r.type, raw(r)) for r in l)) or "-"
-        out.append("%d>%s/%d/%s|%d|%d|%s|%s|%s" % (si, ip, to[1], fs, wid, flags, qd, rs(ans), rs(add)))
+    raw = lambda e: e.class_ | (0x8000 if e.unique else 0)
+    for g in reply_groups(b):
+        for one in g["per_sock"]:
+            o0 = one[0]
+            to = o0["to_full"]
+            ip = "g4" if to[0] == R.MDNS else "g6" if to[0] == MDNS6 else "p%d" % ip_ids.setdefault(to[0], len(ip_ids) + 1)
+            fs = "-" if len(to) == 2 else "%d.%d" % (to[2], to[3])
+            try:
+                si = next(i for i, s in enumerate(box["socks"]) if s is o0["sock"])
+            except StopIteration:
+                si = -1
+            wid, flags, _qd, _cl, _m = raw_classes(o0["data"])
+            qs, ans, add = [], [], []
+            for o in one:
+                m = o["msg"]
+                a, x = R.split_sections(m)
+                qs += ["%s:%d:%d" % (W.name_tok(q.name), q.type, raw(q)) for q in m._questions]
+                ans += [(tr.uni.id(r), r.type, raw(r)) for r in a]
+                add += [(tr.uni.id(r), r.type, raw(r)) for r in x]
+            rs = lambda l: ",".join("%d.%d.%d" % x for x in sorted(l)) or "-"
+            out.append("%d>%s/%d/%s|%d|%d|%s|%s|%s" % (si, ip, to[1], fs, wid, flags, "+".join(qs) or "-", rs(ans), rs(add)))
     return " ".join(sorted(out)) or "-"
 
 
 def trace_byte_lines(tr, box, kept):
-    """for every datagram the host sent in a kept block: the `c11bytes` line that rebuilds it from the *query* (id and questions of
-    the first packet the reply is based on, legacy-ness of the source port) and the registry's own record objects in the order
-    they are on the wire; expected: exactly the bytes sent"""
-    from zeroconf._protocol.incoming import DNSIncoming
-
+    """for every reply the host sent in a kept block, per socket: the `c11bytes` line that rebuilds it from the *query* (id and
+    questions of the first packet the reply must be based on, legacy-ness of the source port) and the registry's own record objects
+    in the order they are on the wire; expected: exactly the datagrams sent, byte for byte, however the reply splits"""
     parsed_by_data = {b["data"]: b["parsed"] for b in tr.blocks if b["kind"] == "rx" and b.get("parsed")}
     lines, exp, cases = [], [], []
+    own = lambda l: [tr.uni.recs[tr.uni.id(r)] for r in l]
     for b in kept:
-        for o in b["outs"]:
-            m = DNSIncoming(o["data"])
-            ans, add = R.split_sections(m)
-            own = lambda l: [tr.uni.recs[tr.uni.id(r)] for r in l]
-            if o["to"][0] in (R.MDNS, MDNS6):
-                lines.append(bytes_line(False, False, 0, [], own(ans), own(add)))
-            else:
-                asm = b.get("asm")
-                # the first packet of the query as delivered (`tc_pass`), not as the implementation assembled it
-                datas = b.get("want") or (asm["datas"] if asm else None)
-                first = parsed_by_data.get(datas[0]) if asm and datas else None
-                if first is None:
-                    continue
-                lines.append(bytes_line(True, asm["port"] != 5353, first["id"], first["questions"], own(ans), own(add)))
-            exp.append("ok " + C.hx(o["data"]))
-            cases.append(dict(at_ms=b["t"] - T0, to=o["to_full"]))
+        for g in reply_groups(b):
+            for one in g["per_sock"]:
+                ans, add = [], []
+                for o in one:
+                    a, x = R.split_sections(o["msg"])
+                    ans += a
+                    add += x
+                if g["mcast"]:
+                    lines.append(bytes_line(False, False, 0, [], own(ans), own(add)))
+                else:
+                    asm = b.get("asm")
+                    # the first packet of the query as delivered (`tc_pass`), not as the implementation assembled it
+                    datas = b.get("want") or (asm["datas"] if asm else None)
+                    first = parsed_by_data.get(datas[0]) if asm and datas else None
+                    if first is None:
+                        continue
+                    lines.append(bytes_line(True, asm["port"] != 5353, first["id"], first["questions"], own(ans), own(add)))
+                exp.append("ok " + " ".join(C.hx(o["data"]) for o in one))
+                cases.append(dict(at_ms=b["t"] - T0, to=one[0]["to_full"], datagrams=len(one)))
     return lines, exp, cases
 
 
@@ -648,8 +824,9 @@ def run_trace_stream(ctx, res, n, only=None):
     lines, boxes = [], []
     blines, bexp, bcases = [], [], []
     todo = only if only is not None else [(ctx["seed"], k) for k in range(n)]
-    for (seed, sc_no) in todo:
-        box = run_scenario(seed, sc_no)
+    for item in todo:
+        seed, sc_no = item[0], item[1]
+        box = run_scenario(seed, sc_no, item[2] if len(item) > 2 else None)
         tr = box["tr"]
         evs, kept = [], []
         for b in tr.blocks:
@@ -657,7 +834,7 @@ def run_trace_stream(ctx, res, n, only=None):
             if b["kind"] in ("rx", "tc") and b["lis"] is not box["lis"]:
                 continue  # another socket's listener: its own duplicate guard, outside this model instance
             line = R.block_line(tr, box["zc"], b)
-            b["obs"] = R.block_obs(tr, b, dedupe_mcast=True)
+            b["obs"] = block_obs11(tr, b)
             evs.append(line)
             kept.append(b)
         for b in tr.blocks:
@@ -669,7 +846,7 @@ def run_trace_stream(ctx, res, n, only=None):
         for b in kept:
             b["phys"] = block_phys(tr, box, b)
         lines.append("c11net %s %d %s" % (world, len(evs), " ".join(evs)))
-        case0 = {"stream": "tr", "seed": seed, "scenario": sc_no}
+        case0 = {"stream": "tr", "seed": seed, "scenario": sc_no, "mode": box["mode"]}
         # which datagrams each reply must be based on, judged from what was delivered (sets b["want"]; verdicts are C12's)
         from . import c12 as _c12
         _c12.tc_pass(C.Result("C12"), tr, [b for b in tr.blocks if b["kind"] == "qf" or b.get("lis") is box["lis"]], case0, box.get("end_t", 0))
@@ -694,10 +871,12 @@ def run_trace_stream(ctx, res, n, only=None):
                 res.disagree("c11bytes", dict(case, line=blines[i][:400]), bexp[i][:200], bmodel[i][:200])
     for idx, (seed, sc_no, box, kept) in enumerate(boxes):
         res.count("tr:scenarios")
+        res.count("tr:mode:" + box["mode"])
+        res.count("tr:split-replies", sum(1 for b in kept for g in reply_groups(b) if len(g["per_sock"][0]) > 1))
         # one evaluation = one received datagram whose handling (routing, format) is compared and judged
         res.evaluations += max(1, sum(1 for b in kept if b["kind"] == "rx"))
         tr = box["tr"]
-        case = {"stream": "tr", "seed": seed, "scenario": sc_no, "sockets": box["layout"], "receiving_socket": box["rx_i"],
+        case = {"stream": "tr", "seed": seed, "scenario": sc_no, "mode": box["mode"], "sockets": box["layout"], "receiving_socket": box["rx_i"],
                 "services": [(i.name, i.server, i.host_ttl, i.other_ttl) for i in box["infos"]],
                 "queries": [dict(t=q["t"] - T0, src=q["src"], data=q["data"].hex()) for q in box["queries"]]}
         if box["errors"]:
@@ -750,7 +929,7 @@ def run(ctx):
         bt *= 3
     for name, body in C.load_corpus("C11"):
         if body.get("kind") == "trace":
-            run_trace_stream(ctx, res, 0, only=[(body["seed"], body["scenario"])])
+            run_trace_stream(ctx, res, 0, only=[(body["seed"], body["scenario"], body.get("mode"))])
     run_fmt_stream(ctx, res)
     run_send_stream(ctx, res)
     run_trace_stream(ctx, res, bt)
@@ -762,7 +941,7 @@ def replay(body):
     res = _Result("C11")
     ctx = {"tier": "quick", "seed": case.get("seed", 0), "widened": False, "driver_ok": C.DRIVER.exists(), "stages": {}}
     if case.get("stream") == "tr":
-        run_trace_stream(ctx, res, 0, only=[(case["seed"], case["scenario"])])
+        run_trace_stream(ctx, res, 0, only=[(case["seed"], case["scenario"], case.get("mode"))])
     elif case.get("stream") == "fmt":
         run_fmt_stream(ctx, res)
     else:
